@@ -49,6 +49,11 @@ func (h *encHarness) wrapper(k int) wrapping.Wrapper {
 		return w
 	}
 	w := testWrapper(byte(k))
+	if k%2 == 0 {
+		// wrappers 2 and 4 have different keys under ONE key id (an id that names the key's purpose, not its
+		// version): a rotation from one to the other is a rotation all the same
+		w.SetConfig(context.Background(), wrapping.WithKeyId("audit-events"))
+	}
 	h.wrappers[k] = w
 	return w
 }
